@@ -14,17 +14,19 @@ import (
 
 // return arg: String(params[arg])
 func asObjectKey(param httpapi.TypedParam) string {
-	var underlying *an.Basic
+	var kind an.BasicKind
 	switch t := param.Type.(type) {
 	case *an.Basic:
-		underlying = t
+		kind = t.Kind()
 	case *an.Named:
-		underlying = t.Underlying.(*an.Basic)
+		kind = t.Underlying.(*an.Basic).Kind()
+	case *an.Enum:
+		kind = t.Kind()
 	default:
 		panic("unsupported type")
 	}
 
-	switch underlying.Kind() {
+	switch kind {
 	case an.BKFloat, an.BKInt:
 		return fmt.Sprintf("%q: String(params[%q])", param.Name, param.Name) // stringify
 	case an.BKBool:
